@@ -1,0 +1,13 @@
+//go:build !verif
+
+package engine
+
+import "time"
+
+// Verification hook points (see /verif). Without the `verif` build tag they are empty and inlined away.
+
+func verifSync(point string, a, b int) {}
+
+func verifDeadline(start, end time.Time, depth int) {}
+
+func verifLazyCut(pos *Position, cheap, alpha, beta int) {}
